@@ -101,7 +101,7 @@ func zzLiteralRound(src string) {
 		zzrt.Cover("rejected")
 		return
 	}
-	sig1 := parser.ZZSig(ast, false)
+	sig1 := parser.ZZSigNumeric(ast, false)
 	// collect the literal values of the document to decide the known-finding region
 	kf := ""
 	for _, v := range zzLiterals(ast) {
@@ -129,17 +129,17 @@ func zzLiteralRound(src string) {
 	zzrt.Assert(err == nil, "DumpIDL succeeds")
 	ast2, err := parser.ParseString("a.thrift", dumped)
 	if kf != "" {
-		same := err == nil && zzCheck(ast2) == nil && parser.ZZSig(ast2, false) == sig1
+		same := err == nil && zzCheck(ast2) == nil && parser.ZZSigNumeric(ast2, false) == sig1
 		zzrt.Known(kf, same, "dump -> parse does not give back the literal")
 		zzrt.Cover("known-region")
 		return
 	}
 	zzrt.Assert(err == nil, "the dumped IDL parses")
 	zzrt.Assert(zzCheck(ast2) == nil, "the dumped IDL passes the semantic check")
-	if parser.ZZSig(ast2, false) != sig1 {
-		zzrt.Printf("SRC %s DUMP %s\nSIG1 %s\nSIG2 %s\n", src, dumped, sig1, parser.ZZSig(ast2, false))
+	if parser.ZZSigNumeric(ast2, false) != sig1 {
+		zzrt.Printf("SRC %s DUMP %s\nSIG1 %s\nSIG2 %s\n", src, dumped, sig1, parser.ZZSigNumeric(ast2, false))
 	}
-	zzrt.Assert(parser.ZZSig(ast2, false) == sig1, "parse(dump(ast)) equals ast")
+	zzrt.Assert(parser.ZZSigNumeric(ast2, false) == sig1, "parse(dump(ast)) equals ast")
 	zzrt.Cover("roundtrip")
 }
 
